@@ -224,6 +224,9 @@ class SA(np.ndarray):
             for i in range(1, len(cells)):
                 acc = ite(SymBool(k.t == i), cells[i], acc)
             return acc
+        if self.ndim == 1 and _is_sym_index_list(key):
+            # fancy indexing with a list of (possibly symbolic) integer positions
+            return as_sa([self[k] for k in _index_list(key)])
         if isinstance(key, tuple) and len(key) >= 1 and isinstance(key[0], np.ndarray) and key[0].dtype == object:
             m0 = np.array([bool(c) for c in key[0].view(np.ndarray).reshape(-1)], dtype=bool)
             return super().__getitem__((m0,) + tuple(key[1:]))
@@ -240,6 +243,16 @@ class SA(np.ndarray):
             cells = self.view(np.ndarray)
             for i in range(len(cells)):
                 cells[i] = ite(SymBool(k.t == i), value, cells[i])
+            return
+        if self.ndim == 1 and _is_sym_index_list(key):
+            # a[[i, j, ...]] = v with symbolic positions: numpy assigns position by position (a repeated
+            # position keeps the last value); the right-hand side was evaluated before
+            ks = _index_list(key)
+            vals = [value] * len(ks) if np.ndim(value) == 0 else list(np.asarray(value, dtype=object).reshape(-1))
+            if len(vals) != len(ks):
+                raise ValueError(f'shape mismatch: value array of size {len(vals)} for {len(ks)} positions')
+            for k_, v_ in zip(ks, vals):
+                self[k_] = v_
             return
         if isinstance(key, np.ndarray) and key.dtype == object and key.shape == self.shape:
             # a[mask] = v with a symbolic boolean mask: cell-wise if-then-else for a scalar v; for an
@@ -304,6 +317,25 @@ class SA(np.ndarray):
         if self.size == 1:
             return bool(self.reshape(-1)[0])
         raise ValueError('The truth value of an array with more than one element is ambiguous.')
+
+
+def _index_list(key):
+    return list(key.reshape(-1)) if isinstance(key, np.ndarray) else list(key)
+
+
+def _is_sym_index_list(key):
+    """list / 1-D object array of integer positions at least one of which is symbolic (SymInt)."""
+    if isinstance(key, np.ndarray):
+        if key.dtype != object or key.ndim != 1:
+            return False
+        items = list(key)
+    elif isinstance(key, list):
+        items = key
+    else:
+        return False
+    if not items or not any(isinstance(k, SymInt) for k in items):
+        return False
+    return all(isinstance(k, (SymInt, int, np.integer)) and not isinstance(k, (bool, np.bool_)) for k in items)
 
 
 def _to_obj(data):
